@@ -13,6 +13,10 @@ func VFRun(env *vfc.Env) {
 	switch env.Mode {
 	case "store.c16":
 		vfC16(env)
+	case "store.c09":
+		vfC09(env)
+	case "store.c14":
+		vfC14(env)
 	default:
 		env.Res.Inconc("unknown mode " + env.Mode)
 	}
